@@ -8,6 +8,10 @@
 (* Payload bodies are opaque: the single law DecodeBody(EncodeBody(m)) = m, a strict     *)
 (* prefix of an encoding never decodes, trailing bytes inside the frame are ignored      *)
 (* (bincode's default `deserialize`).                                                    *)
+(* The machine reads a byte STREAM: how many bytes one `read` call hands over is not part  *)
+(* of the state, so the outcome may not depend on it - the harness decodes every case       *)
+(* once from a whole buffer and again through readers that hand over 1, 5 and 11-13 bytes   *)
+(* per call and requires the same Ok / error split and the same value.                      *)
 EXTENDS Naturals, Sequences, FiniteSets, TLC, Json
 
 MaxPayload == 16777216
